@@ -103,6 +103,32 @@ def run() -> int:
         raise C.MachineryError("replay judge selftest failed")
     done.append("replay judge reports a corrupted expectation")
 
+    # 9. PestVMTrace: a recorded parse with one checkpoint event corrupted / one removed / a wrong tree is rejected with the clause named
+    from . import vmtrace  # noqa: PLC0415
+
+    gtext9 = 'r = { ("a" ~ s)* ~ PUSH("b")? ~ !"c" }\ns = { "x" | "y" }\n'
+    g9, p9 = vmtrace.export_for_vm(pest, gtext9, {97, 98, 99, 120, 121})
+    c_ok = vmtrace.record_case(pest, p9, "g", "r", "axayb")
+    import copy  # noqa: PLC0415
+
+    c_ev = copy.deepcopy(c_ok)
+    c_ev["events"][3]["pos"] += 1
+    c_cnt = copy.deepcopy(c_ok)
+    c_cnt["events"].append(dict(c_cnt["events"][-1]))  # one call more than the machine makes
+    c_less = copy.deepcopy(c_ok)
+    c_less["events"].pop()  # one call fewer
+    c_tree = copy.deepcopy(c_ok)
+    c_tree["pairs"][0][4][0][2] += 1
+    c_fail = vmtrace.record_case(pest, p9, "g", "r", "axc")
+    c_fp = copy.deepcopy(c_fail)
+    c_fp["fp"] += 1
+    vs, _, gf, tf = vmtrace.validate_cases({"g": g9}, [c_ok, c_ev, c_cnt, c_less, c_tree, c_fail, c_fp, c_ok], "selftest_vm")
+    if vs != ["accept", "event", "count", "event", "tree", "accept", "fpos", "accept"]:
+        raise C.MachineryError(f"PestVMTrace selftest: verdicts {vs}")
+    gf.unlink()
+    tf.unlink()
+    done.append("PestVMTrace names the failing clause (event / count / tree / fpos) and accepts the real recordings around them")
+
     for d in done:
         print("selftest ok:", d)
     return 0
